@@ -228,6 +228,88 @@ func unsubscribeProbe(ctx *core.Ctx, bin string) {
 	}
 }
 
+// foreignUnsubscribeProbe: X is the only subscriber of the channel `solo` and
+// of the pattern `so*`. Another subscribed connection Y, which never
+// subscribed to either, names them in UNSUBSCRIBE / PUNSUBSCRIBE. That removes
+// nothing of X's: every later PUBLISH still reaches X once per subscription.
+func foreignUnsubscribeProbe(ctx *core.Ctx, bin string) {
+	s, err := srv.Start(srv.Opts{Bin: bin})
+	if err != nil {
+		ctx.Inconclusive("foreign unsubscribe probe: " + err.Error())
+		return
+	}
+	defer s.Kill9()
+	x, err1 := respc.Dial(s.Addr(), 5*time.Second)
+	y, err2 := respc.Dial(s.Addr(), 5*time.Second)
+	pub, err3 := respc.Dial(s.Addr(), 5*time.Second)
+	if err1 != nil || err2 != nil || err3 != nil {
+		ctx.Inconclusive("foreign unsubscribe probe: dial")
+		return
+	}
+	defer x.Close()
+	defer y.Close()
+	defer pub.Close()
+	ack := func(c *respc.Conn, cmd []string, acks int) bool {
+		c.Send(cmd...)
+		for i := 0; i < acks; i++ {
+			if r, err := c.RecvTimeout(5 * time.Second); err != nil || r.Kind != '*' {
+				ctx.Inconclusive(fmt.Sprintf("foreign unsubscribe probe: no acknowledgement of %q", cmd))
+				return false
+			}
+		}
+		return true
+	}
+	if !ack(x, []string{"SUBSCRIBE", "solo"}, 1) || !ack(x, []string{"PSUBSCRIBE", "so*"}, 1) || !ack(y, []string{"SUBSCRIBE", "other"}, 1) {
+		return
+	}
+	steps := [][]string{nil, {"UNSUBSCRIBE", "solo"}, {"PUNSUBSCRIBE", "so*"}, {"UNSUBSCRIBE", "solo", "other"}}
+	history := ""
+	for i, cmd := range steps {
+		if cmd != nil {
+			// whatever Y is answered (an acknowledgement per name or an error), it is drained before the PUBLISH
+			y.Send(cmd...)
+			for {
+				if _, err := y.RecvTimeout(300 * time.Millisecond); err != nil {
+					break
+				}
+			}
+			history += fmt.Sprintf("%q; ", cmd)
+		}
+		payload := "f-" + strconv.Itoa(i)
+		if r, err := pub.Do("PUBLISH", "solo", payload); err != nil || r.IsErr() {
+			ctx.Inconclusive("foreign unsubscribe probe: PUBLISH failed")
+			return
+		}
+		var got []string
+		for {
+			r, err := x.RecvTimeout(600 * time.Millisecond)
+			if err != nil {
+				break
+			}
+			if r.Kind != '*' || len(r.Arr) < 3 || r.Arr[len(r.Arr)-1].Str != payload {
+				continue
+			}
+			if r.Arr[0].Str == "message" {
+				got = append(got, "m")
+			} else if r.Arr[0].Str == "pmessage" {
+				got = append(got, "p:"+r.Arr[1].Str)
+			}
+		}
+		sortStrings(got)
+		ctx.Eval(1)
+		ctx.Distinct("foreign-unsubscribe|" + strconv.Itoa(i))
+		if g := joinStrings(got); g != "m p:so*" {
+			key := "lost:after-foreign-unsubscribe"
+			if len(got) > 2 {
+				key = "extra:after-foreign-unsubscribe"
+			}
+			ctx.Violation(key, fmt.Sprintf("X after `SUBSCRIBE solo`, `PSUBSCRIBE so*`; another subscribed connection Y (`SUBSCRIBE other`) sent %sthen `PUBLISH solo %s`: X received [%s], due [m p:so*] (m = message, p:<pattern> = pmessage)", history, payload, g),
+				map[string]any{"step": i, "got": g, "want": "m p:so*"})
+			return
+		}
+	}
+}
+
 func sortStrings(a []string) {
 	for i := 1; i < len(a); i++ {
 		for j := i; j > 0 && a[j] < a[j-1]; j-- {
